@@ -845,6 +845,13 @@ def _linear(f, n, depth=0):
         for kk, v in b.items():
             out[kk] = out.get(kk, 0) + (v if s["op"] == "+" else -v)
         return {kk: v for kk, v in out.items() if v != 0 or kk == 1}
+    if k == "BinaryOperator" and s["op"] == "*":
+        ca, cb = const_value(s["c"][0]), const_value(s["c"][1])
+        if ca is not None or cb is not None:
+            other = _linear(f, s["c"][1] if ca is not None else s["c"][0], depth)
+            m = ca if ca is not None else cb
+            if other is not None:
+                return {kk: v * m for kk, v in other.items() if v * m != 0 or kk == 1}
     if k == "DeclRefExpr" and s.get("dk") == "Var" and depth < 4:
         inits = [x for x in f.walk() if x["k"] == "VarDecl" and x.get("did") == s.get("did") and x.get("c") and x["c"][0] is not None]
         assigns = [x for x in f.walk() if (x["k"] == "BinaryOperator" and x["op"] == "=" or x["k"] == "CompoundAssignOperator"
